@@ -2,7 +2,9 @@
    When the exact-structure tie of C07 breaks, the question "does the property itself fail?" is
    decided by decoding the structure the Go code exported and running the boolean checkers that
    are proved equivalent to the invariants (rb_okb_spec, avl_okb_spec, btree_okb_spec, heap_okb_spec),
-   not by comparing with the L1 model.  Definitions only; extracted into coq/ocaml/oracle. *)
+   not by comparing with the L1 model.  The definitions are extracted into coq/ocaml/oracle
+   (extract/ExtractOracle.v, entry points oracle_vector / oracle_cost / oracle_cost_op); the lemmas
+   state what each checker means (no axioms; see coq/ocaml/ORACLE.md). *)
 From Coq Require Import ZArith List Bool Lia.
 From Gods Require Import Common.Cmp Common.ListAux Spec.MapSpec Model.Ops Model.Machine.
 From Gods Require Import Proofs.RBInv Proofs.AVLInv Proofs.HeapProofs Proofs.BTreeInv.
